@@ -560,10 +560,15 @@ def node_kind_key(n):
     return 0 if n.kind == "leaf" else 1
 
 
+# When set, only these model nodes (by id) exist in the tree being ordered: divan sorts after filtering, and a module without a
+# position of its own takes the earliest position among the children that are left.
+ALIVE = None
+
+
 def node_location(n):
     if n.location is not None:
         return n.location
-    locs = [node_location(c) for c in n.children]
+    locs = [node_location(c) for c in n.children if ALIVE is None or id(c) in ALIVE]
     locs = [l for l in locs if l is not None]
     return min(locs) if locs else None
 
